@@ -58,7 +58,7 @@ NA = {
 }
 
 # properties whose quick check has been seen to pass (exit 0) on the current tree; the others stay unclaimed until then
-READY = set("C01 C02 C03 C08 C10 C13 C14".split())
+READY = set("C01 C02 C03 C04 C05 C06 C07 C08 C09 C10 C11 C12 C13 C14 C15 C17 C18 C19".split())
 
 
 def main():
